@@ -249,7 +249,11 @@ def judge(ctx, label, xml_path, src_dir, out_dir, file_info=None):
     # ---- per-file pages
     pages = 0
     annotations = 0
-    href_of = {g['file'] or '': g['href'] for g in p.groups}
+    # the tool lists the files in sorted order: pair groups and files by position (the header text may be mangled)
+    if len(p.groups) == len(by_file):
+        href_of = {f: g['href'] for f, g in zip(sorted(by_file), p.groups)}
+    else:
+        href_of = {g['file'] or '': g['href'] for g in p.groups}
     for f, errs in by_file.items():
         if f == '':
             continue
@@ -321,7 +325,7 @@ def _gen_case(ctx, i):
     xp = os.path.join(d, 'report.xml')
     with open(xp, 'w', encoding='utf-8') as f:
         f.write(rep.xml)
-    for k, (kind, _c) in rep.files.items():
+    for k, kind in rep.kinds.items():
         ctx.count('source_kinds', kind)
     r = judge(ctx, 'gen:%s' % sha1(rep.xml), xp, src, os.path.join(d, 'out'),
               file_info=lambda f: rep.nlines.get(f) if rep.readable(f) else None)
@@ -333,11 +337,13 @@ def _gen_case(ctx, i):
     shutil.rmtree(d, ignore_errors=True)
 
 
+# real inputs: kept free of findings whose message contains < > & (known finding
+# witness:page-message-unescaped: such a message is copied unescaped into the per-file page)
 REAL_SOURCES = {
     'arr.c': 'int f(int x) {\n    int a[2];\n    a[2] = x;\n    return a[0];\n}\n',
-    'np.cpp': '#include <vector>\nvoid g(int *p) { *p = 3; }\nint main() {\n    int *p = 0;\n    g(p);\n'
-              '    std::vector<int> v;\n    if (v.size() < 0) {}\n    return 0;\n}\n',
-    'sub/un.c': 'int h(void) {\n    int u;\n    char c = "a<b&c"[1];\n    return u + c;\n}\n',
+    'np.cpp': 'void g(int *p) { *p = 3; }\nint main() {\n    int *p = 0;\n    g(p);\n'
+              '    int z = 0;\n    if (z == 0) {}\n    return 0;\n}\n',
+    'sub/un.c': 'int h(void) {\n    int u;\n    char c = "abc"[1];\n    return u + c;\n}\n',
 }
 
 
@@ -426,7 +432,7 @@ def run(ctx):
     ctx.assumptions.append('msg attributes contain no newline (cppcheck splits short/verbose at the first newline); '
                            'no classification/guideline attributes; severity is never empty')
     _witnesses(ctx)
-    n_gen = ctx.n(40, 3000)
+    n_gen = ctx.n(30, 3000)
     n_real = ctx.n(4, 60)
     items = [('g', i) for i in range(n_gen)] + [('r', i) for i in range(n_real)]
     pmap(lambda it: _gen_case(ctx, it[1]) if it[0] == 'g' else _real_case(ctx, it[1]), items,
